@@ -468,21 +468,23 @@ def main():
         dd = first_diff(r[0], r[1], cmp)
         found = None
         for name, orc in P.get("oracles", {}).items():
-            hits = orc(small, r[0])
+            hits = [h for h in orc(small, r[0]) if not match_known(known, pid, h)]
             if hits:
                 found = (name, hits[0])
                 break
+        # a listed known finding never hides a broken correspondence: only violations that are NOT known count here
+        unknown_violations = [v for v in violations if not match_known(known, pid, v)]
         payload = {"property": pid, "component": comp, "case": small,
                    "first_diff_op": small[dd] if dd is not None and dd < len(small) else None,
                    "impl": r[0][dd] if dd is not None and dd < len(r[0]) else None,
                    "model": r[1][dd] if dd is not None and dd < len(r[1]) else None,
                    "n_disagreeing_cases": len(disagreements)}
-        if found and not violations:
+        if found and not unknown_violations:
             payload["kind"] = "implementation fails property oracle (found after correspondence broke)"
             payload["what"] = found[1]["text"]
             path = write_replay(pid, "oracle", payload)
             violations.append({"kind": "oracle", "sig": found[1].get("sig", {}), "text": found[1]["text"], "replay": path})
-        elif not violations:
+        elif not unknown_violations:
             payload["kind"] = "correspondence broken: model and implementation disagree; no property-oracle failure found on this input"
             payload["reason"] = f"correspondence {comp} no longer checks"
             path = write_replay(pid, "corr", payload)
@@ -490,7 +492,7 @@ def main():
                                "text": f"model/implementation disagreement in {comp}", "replay": path, "nofail": True})
 
     # broken proof obligations (7.2) / audit / tie (7.4)
-    if (proof_failed or audit_problems or tie_broken) and not violations:
+    if (proof_failed or audit_problems or tie_broken) and not [v for v in violations if not match_known(known, pid, v)]:
         # directed witness search on the implementation
         found = None
         if not tie_broken or "harness does not build" not in (tie_broken or ""):
